@@ -396,6 +396,7 @@ fn chunks(limit: usize) -> Option<String> {
 }
 
 pub fn search(which: &str) -> Option<String> {
+    if simd::known(which) { return simd::search(which); }
     if let Some(rest) = which.strip_prefix("chunks:") { return chunks(rest.parse().unwrap_or(64)); }
     if which == "helpers_small" {
         for w in ["validate_and_iter", "fft_helper_inplace", "validate_and_iter_unroll2x", "fft_helper_inplace_unroll2x", "validate_and_zip", "fft_helper_immut",
@@ -436,6 +437,136 @@ pub fn search(which: &str) -> Option<String> {
     }
 }
 pub fn known(which: &str) -> bool {
-    which.starts_with("partition:") || which.starts_with("plan_scalar:") || which.starts_with("plan_history:") || which.starts_with("shapes:") || which.starts_with("chunks:") || which == "helpers_small" || which == "sqrt_limit"
+    simd::known(which) || which.starts_with("partition:") || which.starts_with("plan_scalar:") || which.starts_with("plan_history:") || which.starts_with("shapes:") || which.starts_with("chunks:") || which == "helpers_small" || which == "sqrt_limit"
         || matches!(which, "MixedRadix" | "MixedRadixSmall" | "GoodThomasAlgorithm" | "GoodThomasAlgorithmSmall" | "Radix4" | "Radix3" | "RadersAlgorithm" | "BluesteinsAlgorithm")
+}
+
+// ---- SIMD planners (bounded stand-in: all SIMD kernels are outside both verifiers) -------------------------------------
+// Compiled only when the replay crate enables the avx/sse features; run on whatever this CPU supports.
+#[cfg(all(target_arch = "x86_64", feature = "sse", feature = "avx"))]
+pub mod simd {
+    use super::*;
+    use num_traits::Float;
+
+    fn bits<T: Float>(x: T) -> u64 { x.to_f64().unwrap().to_bits() }
+    fn gen<T: FftNum + Float>(i: usize) -> Complex<T> { Complex::new(T::from_f64(((i * 7 + 3) % 11) as f64 - 5.0).unwrap(), T::from_f64(((i * 5 + 1) % 13) as f64 * 0.25).unwrap()) }
+    fn close<T: FftNum + Float>(a: &[Complex<T>], b: &[Complex<T>], tol: f64) -> bool {
+        if a.len() != b.len() { return false; }
+        let mut num = 0.0f64; let mut den = 0.0f64;
+        for (x, y) in a.iter().zip(b.iter()) {
+            let (dr, di) = (x.re.to_f64().unwrap() - y.re.to_f64().unwrap(), x.im.to_f64().unwrap() - y.im.to_f64().unwrap());
+            num += dr * dr + di * di; den += y.re.to_f64().unwrap().powi(2) + y.im.to_f64().unwrap().powi(2);
+        }
+        if !num.is_finite() { return false; }
+        num.sqrt() <= tol * den.sqrt().max(1.0)
+    }
+
+    // one transform: canaries, immutable input, ill-shaped calls, chunk independence, agreement with the portable transform
+    fn one<T: FftNum + Float>(desc: &str, f: &dyn Fft<T>, reference: &dyn Fft<T>, tol: f64) -> Option<String> {
+        const G: usize = 8;
+        let n = f.len();
+        let canary = Complex::new(T::from_f64(-12345.5).unwrap(), T::from_f64(54321.25).unwrap());
+        let guarded = |len: usize, off: usize| -> Vec<Complex<T>> { let mut v = vec![canary; len + 2 * G]; for (i, x) in v[G..G + len].iter_mut().enumerate() { *x = gen(i + off); } v };
+        let intact = |v: &Vec<Complex<T>>, len: usize| -> bool { v[..G].iter().chain(v[G + len..].iter()).all(|x| bits(x.re) == bits(canary.re) && bits(x.im) == bits(canary.im)) };
+        for entry in 0..3 {
+            let adv = match entry { 0 => f.get_inplace_scratch_len(), 1 => f.get_outofplace_scratch_len(), _ => f.get_immutable_scratch_len() };
+            let name = ["process_with_scratch", "process_outofplace_with_scratch", "process_immutable_with_scratch"][entry];
+            // (a) shapes around the valid one
+            let mut cases: Vec<(usize, usize, usize)> = vec![];
+            for k in 1..=5usize { cases.push((k * n, k * n, adv)); }
+            if n > 0 { cases.push((2 * n + 1, 2 * n + 1, adv)); cases.push((3 * n, 3 * n + n, adv)); cases.push((2 * n, 2 * n.max(1) - 1, adv)); if adv > 0 { cases.push((2 * n, 2 * n, adv - 1)); } cases.push((n - 1, n - 1, adv)); }
+            for (dl, ol, sl) in cases {
+                let well = n == 0 || (dl % n == 0 && (entry == 0 || ol == dl) && sl >= adv);
+                let case = format!("{desc}.{name}(data.len()={dl}, output.len()={ol}, scratch.len()={sl}) [len {n}, advertised scratch {adv}]");
+                eprintln!("CASE {case}");
+                let (mut a, mut b, mut c) = (guarded(dl, 0), guarded(ol, 1000), guarded(sl, 2000));
+                let a0 = a.clone();
+                let r = quiet(|| {
+                    let (x, y, z) = (&mut a[G..G + dl], &mut b[G..G + ol], &mut c[G..G + sl]);
+                    match entry { 0 => f.process_with_scratch(x, z), 1 => f.process_outofplace_with_scratch(x, y, z), _ => f.process_immutable_with_scratch(x, y, z) }
+                });
+                if !intact(&a, dl) || !intact(&b, ol) || !intact(&c, sl) { return Some(format!("{case}: memory outside the caller's slices was written")); }
+                if entry == 2 && a.iter().zip(a0.iter()).any(|(p, q)| bits(p.re) != bits(q.re) || bits(p.im) != bits(q.im)) { return Some(format!("{case}: the immutable input was modified")); }
+                match r {
+                    Ok(()) => {
+                        if !well { return Some(format!("{case}: ill-shaped call returned normally")); }
+                        // (b) every chunk equals the portable transform of that chunk (C01/C07, up to rounding)
+                        if n > 0 {
+                            let out: &[Complex<T>] = if entry == 0 { &a[G..G + dl] } else { &b[G..G + ol] };
+                            for ch in 0..dl / n {
+                                let mut r = a0[G + ch * n..G + (ch + 1) * n].to_vec();
+                                let mut sc = vec![Complex::new(T::zero(), T::zero()); reference.get_inplace_scratch_len()];
+                                reference.process_with_scratch(&mut r, &mut sc);
+                                if !close(&out[ch * n..(ch + 1) * n], &r, tol) { return Some(format!("{case}: chunk {ch} differs from the portable (scalar-planner) transform of the same chunk beyond rounding")); }
+                            }
+                        }
+                    }
+                    Err(e) => if well { return Some(format!("{case}: well-shaped call panicked: {}", panic_msg(e))); },
+                }
+            }
+        }
+        None
+    }
+
+    macro_rules! sweep {
+        ($planner:ident, $t:ty, $limit:expr, $tol:expr) => {{
+            if let Ok(mut p) = crate::$planner::<$t>::new() {
+                for n in 0..$limit {
+                    let d = if n % 2 == 0 { FftDirection::Forward } else { FftDirection::Inverse };
+                    let desc = format!("{}::<{}>.plan_fft({}, {:?})", stringify!($planner), stringify!($t), n, d);
+                    eprintln!("CASE {desc}");
+                    let r = quiet(|| p.plan_fft(n, d));
+                    let f = match r { Err(e) => return Some(format!("{desc} panicked: {}", panic_msg(e))), Ok(f) => f };
+                    if f.len() != n { return Some(format!("{desc}.len() = {}", f.len())); }
+                    if f.fft_direction() != d { return Some(format!("{desc}.fft_direction() = {:?}", f.fft_direction())); }
+                    let worst = f.get_inplace_scratch_len().max(f.get_outofplace_scratch_len()).max(f.get_immutable_scratch_len());
+                    if worst > 12 * n + 64 { return Some(format!("{desc} advertises scratch {} > 12n+64", worst)); }
+                    let reference = crate::FftPlannerScalar::<$t>::new().plan_fft(n, d);
+                    if let Some(x) = one::<$t>(&desc, &*f, &*reference, $tol) { return Some(x); }
+                }
+            }
+        }};
+    }
+    // history on one SIMD planner: pairs over related lengths
+    macro_rules! history {
+        ($planner:ident, $t:ty, $pool:expr, $tol:expr) => {{
+            if crate::$planner::<$t>::new().is_ok() {
+                let dirs = [FftDirection::Forward, FftDirection::Inverse];
+                for &n1 in $pool.iter() { for &d1 in &dirs { for &n2 in $pool.iter() { for &d2 in &dirs {
+                    let desc = format!("{}::<{}>: plan_fft({}, {:?}) then plan_fft({}, {:?})", stringify!($planner), stringify!($t), n1, d1, n2, d2);
+                    eprintln!("CASE {desc}");
+                    let r = quiet(|| { let mut p = crate::$planner::<$t>::new().unwrap(); let _ = p.plan_fft(n1, d1); p.plan_fft(n2, d2) });
+                    let f = match r { Err(e) => return Some(format!("{desc} panicked: {}", panic_msg(e))), Ok(f) => f };
+                    if f.len() != n2 { return Some(format!("{desc}: second transform has len() = {}", f.len())); }
+                    if f.fft_direction() != d2 { return Some(format!("{desc}: second transform has fft_direction() = {:?}", f.fft_direction())); }
+                    let reference = crate::FftPlannerScalar::<$t>::new().plan_fft(n2, d2);
+                    let mut a: Vec<Complex<$t>> = (0..n2).map(gen).collect();
+                    let mut b = a.clone();
+                    let mut s1 = vec![Complex::new(0.0, 0.0); f.get_inplace_scratch_len()];
+                    let mut s2 = vec![Complex::new(0.0, 0.0); reference.get_inplace_scratch_len()];
+                    f.process_with_scratch(&mut a, &mut s1); reference.process_with_scratch(&mut b, &mut s2);
+                    if !close(&a, &b, $tol) { return Some(format!("{desc}: second transform differs from the portable transform beyond rounding")); }
+                }}}}
+            }
+        }};
+    }
+
+    pub fn search(which: &str) -> Option<String> {
+        let limit: usize = which.rsplit(':').next().and_then(|x| x.parse().ok()).unwrap_or(64);
+        if which.starts_with("simd_sse:") { sweep!(FftPlannerSse, f32, limit, 2e-4); sweep!(FftPlannerSse, f64, limit, 1e-11); return None; }
+        if which.starts_with("simd_avx:") { sweep!(FftPlannerAvx, f32, limit, 2e-4); sweep!(FftPlannerAvx, f64, limit, 1e-11); return None; }
+        if which.starts_with("simd_history") {
+            let pool: Vec<usize> = if limit > 100 { vec![5, 16, 25, 35, 36, 37, 50, 64, 70, 74, 101, 125, 128, 192, 193, 250, 407, 625] } else { vec![5, 16, 25, 35, 37, 50, 64, 70, 125, 128, 193] };
+            history!(FftPlannerAvx, f32, pool, 2e-4); history!(FftPlannerAvx, f64, pool, 1e-11);
+            history!(FftPlannerSse, f32, pool, 2e-4); history!(FftPlannerSse, f64, pool, 1e-11);
+            return None;
+        }
+        None
+    }
+    pub fn known(which: &str) -> bool { which.starts_with("simd_sse:") || which.starts_with("simd_avx:") || which.starts_with("simd_history") }
+}
+#[cfg(not(all(target_arch = "x86_64", feature = "sse", feature = "avx")))]
+pub mod simd {
+    pub fn search(_which: &str) -> Option<String> { None }
+    pub fn known(_which: &str) -> bool { false }
 }
